@@ -10,8 +10,8 @@ from msmart.lan import LAN, ProtocolError, _Packet
 ID = "C03"
 LEVEL = "fault_enumeration"
 RULE = ("for authentic reference-built packets of chosen frame lengths: every single-bit flip at every bit position, every "
-        "truncation length 0..n-1, single-byte substitutions, random multi-byte corruptions, fed to _Packet.decode (and a sample "
-        "through LAN.send with the simulated device sending the corrupted packet). Outcome classes: ProtocolError (required), "
+        "truncation length 0..n-1, all 255 substitutions of each start-marker / length-field byte, a catalogue of 16-bit length values (alone and with a corrupted payload byte), single-byte substitutions, random multi-byte corruptions, fed to _Packet.decode (and a sample "
+        "through LAN.send with the simulated device sending the corrupted packet, on V2 connections and tunnelled inside correctly tagged V3 encrypted responses). Outcome classes: ProtocolError (required), "
         "frame returned / other exception (violation). A corruption the reference still accepts as authentic is skipped and counted. "
         "distinct = (frame length, fault kind, position, value); all are non-trivial (the packet differs from an authentic one)")
 ASSUMPTIONS = ["a corruption producing a valid keyed MD5 by chance is skipped (none observed)",
@@ -46,11 +46,14 @@ def generate(ctx, rng):
             for part in range(4):
                 yield ("subst", L, part), {**base, "fault": "subst", "values": list(range(1 + part, 256, 4))}
         yield ("multi", L), {**base, "fault": "multi", "n": 40 if quick else 3000, "mseed": rng.getrandbits(32)}
-    n_wire = 150 if quick else 3000
+        # every value of each byte of the start marker / length field, and a catalogue of 16-bit length values
+        yield ("lenfield", L), {**base, "fault": "lenfield"}
+    n_wire = 300 if quick else 6000
     for j in range(n_wire):
         L = rng.choice(Q_LENGTHS)
         yield ("wire", j), {"frame": rng.randbytes(L), "id": rng.getrandbits(48), "filler": {}, "fault": "wire",
-                            "wkind": rng.choice(["flip", "trunc", "subst", "multi"]), "mseed": rng.getrandbits(32)}
+                            "wkind": rng.choice(["flip", "trunc", "subst", "multi", "len0"]), "mseed": rng.getrandbits(32),
+                            "version": 2 if j % 2 else 3}
 
 
 def _judge(ctx, case, orig_frame, pkt, corrupted, what):
@@ -101,6 +104,24 @@ def run_case(ctx, case):
                 c = bytearray(pkt)
                 c[pos] ^= val          # xor with non-zero => all other byte values
                 _judge(ctx, case, frame, pkt, bytes(c), ("subst", pos, val))
+    elif fault == "lenfield":
+        for pos in (0, 1, 4, 5):
+            for x in range(1, 256):
+                c = bytearray(pkt)
+                c[pos] ^= x
+                _judge(ctx, case, frame, pkt, bytes(c), ("subst", pos, x))
+        n = len(pkt)
+        for val in (0, 1, 15, 16, 17, 32, 39, 40, 41, 55, 56, 57, n - 32, n - 17, n - 16, n - 15, n - 1, n + 1, n + 16, 255, 256, 0x100 | (n & 0xFF), 65535):
+            val &= 0xFFFF
+            if val == n:
+                continue
+            c = bytearray(pkt)
+            c[4:6] = val.to_bytes(2, "little")
+            _judge(ctx, case, frame, pkt, bytes(c), ("length", val))
+            # ... combined with one corrupted payload byte (a skipped signature check would mis-decode)
+            if n > 60:
+                c[44] ^= 0x5A
+                _judge(ctx, case, frame, pkt, bytes(c), ("length+payload", val))
     elif fault == "multi":
         r = random.Random(case["mseed"])
         for i in range(case["n"]):
@@ -137,6 +158,10 @@ def _wire(ctx, case, frame, pkt):
         c = c[:r.randint(1, len(c) - 1)]
     elif k == "subst":
         c[r.randrange(len(c))] ^= r.randint(1, 255)
+    elif k == "len0":
+        c[4:6] = b"\x00\x00"
+        if r.random() < 0.5 and len(c) > 60:
+            c[44] ^= 0x21
     else:
         for _ in range(r.randint(2, 8)):
             c[r.randrange(len(c))] ^= r.randint(1, 255)
@@ -145,14 +170,23 @@ def _wire(ctx, case, frame, pkt):
         ctx.skip("corruption-still-authentic")
         return
     net = H.new_net()
-    dev = SimDevice(net, version=2, device_id=case["id"])
-    dev.on_exchange = lambda conn, req, packets, meta: [(0, corrupted)]
+    version = case.get("version", 2)
+    token, aes_key = bytes(range(64)), bytes(range(32))
+    dev = SimDevice(net, version=version, token=token, key=aes_key, device_id=case["id"])
+    if version == 3:
+        # the corrupted V2 packet travels inside a correctly tagged V3 encrypted response
+        from ..ref import v3
+        dev.on_exchange = lambda conn, req, packets, meta: [(0, v3.build_encrypted(conn.skey, corrupted, 7, v3.T_ENC_RESP))]
+    else:
+        dev.on_exchange = lambda conn, req, packets, meta: [(0, corrupted)]
 
     async def go(loop):
         lan = LAN(dev.host, dev.port, case["id"])
+        if version == 3:
+            await lan.authenticate(token, aes_key)
         return await lan.send(b"\xaa\x0b\xac" + bytes(8))
 
-    key = (len(frame), ("wire", k, case["mseed"]))
+    key = (len(frame), ("wire", k, case["mseed"], version))
     try:
         got, loop = H.run_virtual(go, net)
     except ProtocolError:
